@@ -181,13 +181,12 @@ def run(c, facts, tier):
             continue
         atoms = key.split(" ∧ ")
         ci = [x.split("=")[1] == "True" for x in atoms if re.fullmatch(r"@1=(True|False)", x)]
-        glob_atoms = [x for x in atoms if ".contains(" in x and "@0" in x and re.search(r"=(True|False)$", x)]
+        glob_atoms = [x for x in atoms if ".contains_any(" in x and "@0" in x and re.search(r"=(True|False)$", x)]
         if len(ci) != 1 or len(glob_atoms) != 1:
             c.ob("C02.match", "scheme::manager", "matcher choice [%s]" % key[:70], None, "the allocating path does not branch on exactly one glob test of the pattern and on the case flag: %s" % atoms)
             continue
         gsub, gval = glob_atoms[0].rsplit("=", 1)
-        chars = sorted(re.findall(r"@0\.contains\('(.)'\)", gsub))
-        shape_ok = chars == sorted("?*[") and re.sub(r"@0\.contains\('.'\)", "T", gsub).replace("(", "").replace(")", "").replace(" ", "") in ("T|T|T", "T||T||T")
+        shape_ok = gsub == "@0.contains_any(%r)" % "".join(sorted("?*["))
         k_ = (gval == "True", ci[0])
         seen_m.add(k_)
         txt = " ".join(row["effects"])
